@@ -3,6 +3,7 @@ CONSTANTS
   Focus = "all"
   Thorough = FALSE
 SPECIFICATION MCSpec
+INVARIANT GridSane
 INVARIANT MachineIsFunction
 INVARIANT P1_NotifyGate
 INVARIANT P2_Transparent
